@@ -37,29 +37,42 @@ If `error` is not a valid property-list then just simply print it using the `pri
        (catch-all (lambda (_) (print error))))
       ""))
 
+(defun -repl-step (prompt pending ask?)
+  "One step of the REPL: read one form from `pending` (after asking for another line of input if `ask?`),
+evaluate it and print the result.
+Return the arguments of the next step as a list, or the symbol `eof` when the end of input (EOF) is reached."
+  (try
+   (let (current-input (if ask? (concat pending (input prompt)) pending))
+     (let (read-result (read current-input 'stdin 1 1))
+       (let (read-status (. read-result 'status))
+         (case ((= read-status 'invalid)    (throw 'kind 'invalid-string, 'source 'repl))
+               ((= read-status 'nothing)    (list ">>> " nil t))
+               ((= read-status 'incomplete) (list "... " current-input t))
+               ((= read-status 'error)      (throw 'kind 'syntax-error, 'source 'repl, 'details (. read-result 'error)))
+               ((= read-status 'ok)         (block (output (print (eval (. read-result 'result))))
+                                                   (list ">>> " (. read-result 'rest) nil)))
+               (t                           (throw 'kind 'unknown-read-status, 'source 'repl, 'read-status read-status))))))
+   (catch eof
+     (lambda (_) (block (output "")
+                        'eof)))
+   (catch-all
+    (lambda (error) (block (output (concat "UNHANDLED ERROR:\n\n" (pretty-print-error error)))
+                           (list ">>> " nil t))))))
+
+(defun -repl-loop (state)
+  "Run REPL steps until the end of input. The recursive call is a tail call outside of any `try`,
+so a session of any length runs in constant depth."
+  (if (= state 'eof)
+      'ok
+      (-repl-loop (-repl-step (car state) (car (cdr state)) (car (cdr (cdr state)))))))
+
 (defun repl (prompt initial-input)
   "(R)ead an expression from standard input,
 (E)valuated it,
 (P)rint the result to standard output,
 then repeat (or (L)oop) from the beginning.
 Stop the loop when end of input (EOF) is reached."
-  (try
-   (let (current-input (concat initial-input (input prompt)))
-     (let (read-result (read current-input 'stdin 1 1))
-       (let (read-status (. read-result 'status))
-         (case ((= read-status 'invalid)    (throw 'kind 'invalid-string, 'source 'repl))
-               ((= read-status 'nothing)    (repl prompt nil))
-               ((= read-status 'incomplete) (repl "... " current-input))
-               ((= read-status 'error)      (throw 'kind 'syntax-error, 'source 'repl, 'details (. read-result 'error)))
-               ((= read-status 'ok)         (block (output (print (eval (. read-result 'result))))
-                                                          (repl ">>> " nil)))
-               (t                                  (throw 'kind 'unknown-read-status, 'source (qoute repl), 'read-status read-status))))))
-   (catch eof
-     (lambda (_) (block (output "")
-                        'ok)))
-   (catch-all
-    (lambda (error) (block (output (concat "UNHANDLED ERROR:\n\n" (pretty-print-error error)))
-                           (repl ">>> " nil))))))
+  (-repl-loop (list prompt initial-input t)))
 
 (defun read-eval-print (string pretty-print-errors?)
   "Read a string, evaluate it then print it into a string.
